@@ -401,8 +401,37 @@ func main() {
 	time.Sleep(2 * time.Millisecond)
 	r.grow(30)
 	r.emit("incremental-sync-after", res(ls.SyncAndWait(ctx)), true)
+	// a level-9 snapshot whose pages beyond the lock page come from the DATABASE FILE (everything checkpointed), not from the WAL
+	r.emit("checkpoint-passive", res(ls.Checkpoint(ctx, litestream.CheckpointModePassive)), false)
+	app.Exec("UPDATE f SET b = randomblob(11) WHERE id = 2")
+	r.emit("incremental-sync-small", res(ls.SyncAndWait(ctx)), false)
+	_, err = ls.Snapshot(ctx)
+	r.emit("snapshot-level-9-from-file", res(err), true)
 	// a full re-snapshot from db+WAL with the lock page inside the committed range
 	app.Exec("UPDATE f SET b = randomblob(10) WHERE id = 1")
 	r.emit("close", res(ls.Close(ctx)), true)
+	// a fresh litestream (no local state, empty replica) meets the big database with everything in the database file:
+	// the first sync is a full snapshot through the sync path with the lock page inside the committed range
+	var a, b, c2 int
+	app.QueryRow("PRAGMA wal_checkpoint(TRUNCATE)").Scan(&a, &b, &c2)
+	os.RemoveAll(filepath.Join(filepath.Dir(r.dbPath), "."+filepath.Base(r.dbPath)+litestream.MetaDirSuffix))
+	r.rep = filepath.Join(r.dir, "replica2")
+	r.seen = map[string]bool{}
+	ls2 := litestream.NewDB(r.dbPath)
+	ls2.Logger = discard
+	ls2.MonitorInterval = 0
+	ls2.ShutdownSyncTimeout = 0
+	c3 := file.NewReplicaClient(r.rep)
+	c3.SetLogger(discard)
+	ls2.Replica = litestream.NewReplicaWithClient(ls2, c3)
+	ls2.Replica.MonitorEnabled = false
+	r.ls = ls2
+	if err := ls2.Open(); err != nil {
+		r.emit("reopen-fresh", res(err), false)
+	} else {
+		r.emit("first-sync-of-big-db", res(ls2.SyncAndWait(ctx)), true)
+		app.Exec("UPDATE f SET b = randomblob(12) WHERE id = 3")
+		r.emit("close-fresh", res(ls2.Close(ctx)), true)
+	}
 	app.Close()
 }
